@@ -92,16 +92,18 @@ fn filled(n: usize, l: Lay, rank: usize, cls: VClass, seed: u64) -> GLWE<Vec<u8>
     g
 }
 
-/// runs `f` with an exact-size window under two garbage fills and with slack; f returns the raw output
+/// Runs `f` four times: twice with ample scratch (different garbage in the window and in the destination), then
+/// twice with a window of exactly the queried size.  The two ample runs come first, so that the dependence on
+/// scratch / destination contents is judged for every case - also for the shapes whose exact-size run is a recorded finding.
+/// `f` returns the raw output.
 fn three_runs<B: FullBackend, F>(c: &Case, opn: &str, bytes: usize, mut f: F) -> Result<(), Verdict>
 where
     F: FnMut(&mut Scratch<B>, u64) -> Vec<i64>,
     Scratch<B>: ScratchFromBytes<B>,
 {
     let mut outs: Vec<Vec<i64>> = vec![];
-    // the roomy run comes first: a panic there is not a matter of the size query
     let roomy = 15 * bytes + (8 << 20);
-    for (i, (extra, seed)) in [(roomy, 0x3333_u64), (0, 0x1111), (0, 0x2222)].iter().enumerate() {
+    for (i, (extra, seed)) in [(roomy, 0x3333_u64), (roomy, 0x4444), (0, 0x1111), (0, 0x2222)].iter().enumerate() {
         let mut w = if *extra == 0 { Win::new(bytes, seed ^ c.seed) } else { Win::roomy(bytes + extra, seed ^ c.seed) };
         let r = guarded(|| f(w.scratch::<B>(), i as u64 + 1));
         match r {
@@ -114,9 +116,12 @@ where
         if !w.guards_ok() {
             return Err(Verdict::fail(format!("{opn}|guard-damaged"), format!("backend={} op={opn}: bytes outside the {bytes}-byte scratch window were written\ncase={c:?}", c.be.name())));
         }
+        if i == 1 && outs[0] != outs[1] {
+            return Err(Verdict::fail(format!("{opn}|result-depends-on-scratch-or-stale-content"), format!("backend={} op={opn}: two runs with identical inputs and ample scratch but different garbage in the scratch window / destination differ\ncase={c:?}", c.be.name())));
+        }
     }
-    if outs[1] != outs[2] || outs[0] != outs[1] && false {
-        return Err(Verdict::fail(format!("{opn}|result-depends-on-scratch-or-stale-content"), format!("backend={} op={opn}: two runs with identical inputs but different garbage in the scratch window / destination differ in {} of {} words\ncase={c:?}", c.be.name(), outs[1].iter().zip(outs[2].iter()).filter(|(a, b)| a != b).count(), outs[1].len())));
+    if outs[2] != outs[3] {
+        return Err(Verdict::fail(format!("{opn}|result-depends-on-scratch-or-stale-content"), format!("backend={} op={opn}: two runs with identical inputs but different garbage in the exact-size scratch window / destination differ\ncase={c:?}", c.be.name())));
     }
     if outs[0] != outs[2] {
         return Err(Verdict::fail(format!("{opn}|result-depends-on-scratch-size"), format!("backend={} op={opn}: the result with exactly the queried scratch differs from the result with ample slack\ncase={c:?}", c.be.name())));
